@@ -510,6 +510,6 @@ def run(ctx):
     from . import c10
     borrow(ctx, "C09", c10.rule_reset, ctx.py)
     from .. import lints
-    lints.run(ctx, "C09", ctx.py, ["rdscript", "librdengine"])
+    lints.run(ctx, "C09", ctx.py, ["rdscript", "librdengine", "simulate", "rdoutput"])
     ctx.assume("which step covers which requested time, interval boundaries and the number of steps performed are "
                "value-level and not decided")
